@@ -348,3 +348,53 @@ Lemma done_callback_safe_both own svcs l1 l2 c' tr :
 Proof.
   intros H. split; [exact (done_callback_safe_partial _ _ _ _ _ _ H)|intros k; exact (use_after_free_needs _ _ _ _ _ _ k H)].
 Qed.
+
+(* a call still outstanding when the connection goes DOWN: its closure never runs, before or after;
+   its response object is deleted exactly once if the channel is destroyed with the connection
+   (~RpcChannel), and not at all while a user-owned channel lives on *)
+Lemma inflight_at_down own svcs l1 l2 c' tr s1 tr1 i d :
+  cexec (cinit own svcs) (map CL l1 ++ CDown :: l2) = Some (c', tr) ->
+  NoDup (fetch_tags l1) ->
+  exec (init svcs) l1 = Some (s1, tr1) -> lookup i (outs s1) = Some d ->
+  count_occ Nat.eq_dec (run_tags (cevents tr)) (c_tag d) = 0%nat /\
+  count_occ Nat.eq_dec (del_tags (cevents tr)) (c_tag d) = (if own then 1 else 0)%nat.
+Proof.
+  intros H Hnd H1x Hl. destruct (down_structure _ _ _ _ _ _ H) as (ls2 & s1' & tr1' & s2 & tr2' & -> & Hf & H1 & H12 & _ & _ & _ & ->).
+  rewrite H1x in H1. inversion H1; subst s1' tr1'. clear H1.
+  apply exec_app in H12. destruct H12 as (s1' & tr1' & tr2'' & H1' & H2 & Ht).
+  rewrite H1x in H1'. inversion H1'; subst s1' tr1'. apply app_inv_head in Ht. subst tr2''.
+  destruct (run_tags_after_down own _ _ _ _ Hf H2) as [Hr0 Hd0].
+  change ((CDown, if own then dtor_events (outs s1) else []) :: map (dmute own) tr2')
+    with ([(CDown, if own then dtor_events (outs s1) else [])] ++ map (dmute own) tr2').
+  rewrite !cevents_app, cevents_wrap, !run_tags_app, !del_tags_app, Hr0, Hd0, !app_nil_r.
+  unfold cevents at 1 2. cbn [flat_map snd]. rewrite !app_nil_r.
+  set (tg := c_tag d).
+  pose proof (exec_budget tg _ _ _ _ H1x) as Hb. pose proof (exec_budget_del tg _ _ _ _ H1x) as Hbd.
+  pose proof (proj1 (NoDup_count_occ Nat.eq_dec (fetch_tags l1)) Hnd tg) as Hc. fold (cnt tg (fetch_tags l1)) in Hc.
+  change (cnt tg (live (init svcs))) with 0%nat in Hb, Hbd.
+  pose proof (cnt_live_pos s1 d (or_introl (ex_intro (fun i0 => lookup i0 (outs s1) = Some d) i Hl))) as Hlive. fold tg in Hlive.
+  fold (cnt tg (run_tags (events tr1) ++ run_tags (if own then dtor_events (outs s1) else []))).
+  fold (cnt tg (del_tags (events tr1) ++ del_tags (if own then dtor_events (outs s1) else []))).
+  rewrite !cnt_app.
+  assert (cnt tg (run_tags (if own then dtor_events (outs s1) else [])) = 0)%nat as Hz
+    by (destruct own; [apply cnt_dtor_run|reflexivity]).
+  split; [lia|].
+  destruct own; [|cbn; lia].
+  pose proof (cnt_dtor_del tg (outs s1)) as Hle. unfold live in Hb, Hbd, Hlive. rewrite cnt_app in *.
+  assert (1 <= cnt tg (del_tags (dtor_events (outs s1))))%nat; [|lia].
+  pose proof (proj1 (cinv_exec _ _ _ _ (cinv_init svcs) H1x) _ _ Hl) as Hr. unfold in_contract in Hr.
+  clear - Hl Hr. subst tg. induction (outs s1) as [|[j e] r IH]; cbn [lookup] in Hl; [discriminate|].
+  unfold dtor_events. cbn [flat_map]. fold (dtor_events r). rewrite del_tags_app, cnt_app. cbn [snd].
+  destruct (i =? j).
+  - inversion Hl; subst e. rewrite Hr. unfold cnt. destruct (c_done d); cbn; destruct (Nat.eq_dec (c_tag d) (c_tag d)); try congruence; lia.
+  - apply IH in Hl. lia.
+Qed.
+
+(* a history in which the connection goes DOWN has the shape the theorems above speak about *)
+Lemma split_at_down (cls : list clabel) : In CDown cls -> exists l1 l2, cls = map CL l1 ++ CDown :: l2.
+Proof.
+  induction cls as [|x r IH]; intros Hin; [destruct Hin|].
+  destruct x as [l|].
+  - destruct Hin as [E|Hin]; [discriminate|]. destruct (IH Hin) as (l1 & l2 & ->). exists (l :: l1), l2. reflexivity.
+  - exists [], r. reflexivity.
+Qed.
